@@ -2,6 +2,7 @@ package pslice
 
 import (
 	"fmt"
+	"math"
 	"runtime"
 	"runtime/debug"
 	"sync"
@@ -514,7 +515,56 @@ func genSeqCase(t *rapid.T) SeqCase {
 	}
 	maxLen := rapid.SampledFrom([]int{12, 50, 200, 200}).Draw(t, "maxLen")
 	n := genLen(t, "vs", maxLen)
-	switch rapid.IntRange(0, 4).Draw(t, "shape") {
+	switch rapid.IntRange(0, 6).Draw(t, "shape") {
+	case 6: // ascending runs at different scales: a coarse run, then denser runs that restart
+		// at (or next to) a value of an earlier run and overwrite the tails built so far
+		dir := 1
+		if rapid.Bool().Draw(t, "msDesc") {
+			dir = -1
+		}
+		start, step := 1000, rapid.SampledFrom([]int{5, 10, 16}).Draw(t, "msStep")
+		for r, nr := 0, rapid.IntRange(2, 3).Draw(t, "msRuns"); r < nr; r++ {
+			l := rapid.IntRange(20, 90).Draw(t, "msLen")
+			for i := 0; i < l; i++ {
+				c.Vs = append(c.Vs, start+dir*i*step)
+			}
+			start = c.Vs[rapid.IntRange(0, len(c.Vs)-1).Draw(t, "msFrom")] + rapid.SampledFrom([]int{0, 0, 0, 1, -1}).Draw(t, "msDelta")
+			step = rapid.SampledFrom([]int{1, 1, 2}).Draw(t, "msStep2")
+		}
+		if c.Cmp == "half" {
+			for i := range c.Vs {
+				c.Vs[i] *= 2
+			}
+		}
+	case 5: // nearly sorted over MANY distinct values: long optimal subsequences (>= 34, >= 64)
+		// with exact repeats of earlier elements, local swaps and outliers
+		m := rapid.SampledFrom([]int{40, 70, 130, 300}).Draw(t, "nsLen")
+		step := rapid.IntRange(1, 3).Draw(t, "nsStep")
+		desc := rapid.Bool().Draw(t, "nsDesc")
+		for i := 0; i < m; i++ {
+			v := 10 + i*step
+			if desc {
+				v = 10 + (m-i)*step
+			}
+			c.Vs = append(c.Vs, v)
+		}
+		for j := rapid.IntRange(1, 12).Draw(t, "nsMut"); j > 0; j-- {
+			i := rapid.IntRange(1, len(c.Vs)-1).Draw(t, "nsPos")
+			switch rapid.IntRange(0, 3).Draw(t, "nsKind") {
+			case 0, 1: // an exact repeat of the element b places back, inserted here
+				b := rapid.IntRange(1, min(i, 70)).Draw(t, "nsBack")
+				c.Vs = append(c.Vs[:i], append([]int{c.Vs[i-b]}, c.Vs[i:]...)...)
+			case 2: // swap neighbours
+				c.Vs[i-1], c.Vs[i] = c.Vs[i], c.Vs[i-1]
+			default: // outlier
+				c.Vs[i] = rapid.IntRange(0, 10+m*step).Draw(t, "nsOut")
+			}
+		}
+		if c.Cmp == "half" {
+			for i := range c.Vs {
+				c.Vs[i] *= 2 // distinct under v>>1 as well
+			}
+		}
 	case 0: // uniform over few values
 		c.Vs = rapid.SliceOfN(rapid.IntRange(0, k-1), n, n).Draw(t, "uniform")
 	case 1: // runs of equals
@@ -613,6 +663,14 @@ func genUtilCase(t *rapid.T) UtilCase {
 	// around draws an argument at or next to one of the given points, or
 	// anywhere in [lo, hi].
 	around := func(lo, hi int, pts ...int) int {
+		if rapid.IntRange(0, 11).Draw(t, "extreme") == 0 {
+			// arguments at the ends of the int range (index arithmetic must not overflow)
+			d := rapid.IntRange(0, n+3).Draw(t, "extremeOff")
+			if lo < 0 && rapid.Bool().Draw(t, "extremeNeg") {
+				return math.MinInt + d
+			}
+			return math.MaxInt - d
+		}
 		if rapid.IntRange(0, 2).Draw(t, "argKind") == 0 {
 			return rapid.SampledFrom(pts).Draw(t, "argPoint") + rapid.IntRange(-1, 1).Draw(t, "argOff")
 		}
